@@ -283,10 +283,10 @@ async def _run_schedule(case: dict, schedule: list[int]) -> tuple[Outcome | None
         if value not in sent_values:
             return fail("wrote-unsent-value", f"schedule {trace}: wrote {line!r}, values sent for that key: {sent_values}"), factors, info
         written.setdefault(key, []).append(value)
-    for line in req_lines:
+    for line in set(req_lines):
         count = sum(1 for _t, l in transport.calls if l == line)
-        if count != 1:
-            return fail("req-command-not-written-once", f"schedule {trace}: value request {line!r} was handed to the transport {count} times"), factors, info
+        if count != req_lines.count(line):
+            return fail("req-command-not-written-once", f"schedule {trace}: value request {line!r} was sent {req_lines.count(line)} times and handed to the transport {count} times"), factors, info
     for key, recs in by_key.items():
         got = written.get(key, [])
         where = f"schedule {trace}: key {key}: sent {[(r['value'], r['inv'], r['comp'], 'buffered' if r['buffered'] else 'direct') for r in recs]}, written {got}"
